@@ -27,6 +27,42 @@ pub mod template_arg;
 pub mod typ;
 pub mod variable;
 
+/// Verification hook H3 (compiled only with `--cfg tablegen_lsp_verif`): a thread-local log of
+/// every mutating `SymbolMap` call, in order, with its arguments and the id it returned.
+#[cfg(tablegen_lsp_verif)]
+pub mod verif_oplog {
+    use std::cell::RefCell;
+
+    use crate::file_system::FileRange;
+
+    thread_local! {
+        static LOG: RefCell<Vec<String>> = const { RefCell::new(Vec::new()) };
+    }
+
+    pub fn push(entry: String) {
+        LOG.with(|log| log.borrow_mut().push(entry));
+    }
+
+    pub fn take() -> Vec<String> {
+        LOG.with(|log| std::mem::take(&mut *log.borrow_mut()))
+    }
+
+    pub fn loc(loc: &FileRange) -> String {
+        format!(
+            "{}\t{}\t{}",
+            loc.file.0,
+            u32::from(loc.range.start()),
+            u32::from(loc.range.end())
+        )
+    }
+}
+
+/// Returns and clears the op log of the current thread (hook H3).
+#[cfg(tablegen_lsp_verif)]
+pub fn verif_take_oplog() -> Vec<String> {
+    verif_oplog::take()
+}
+
 #[derive(Debug, Default, Eq, PartialEq)]
 pub struct SymbolMap {
     record_list: Arena<Record>,
@@ -51,6 +87,8 @@ impl SymbolMap {
     }
 
     pub fn record_mut(&mut self, record_id: RecordId) -> &mut Record {
+        #[cfg(tablegen_lsp_verif)]
+        verif_oplog::push(format!("record_mut\t{}", record_id.index()));
         self.record_list
             .get_mut(record_id)
             .expect("invalid record id")
@@ -116,6 +154,8 @@ impl SymbolMap {
     }
 
     pub fn defset_mut(&mut self, defset_id: DefsetId) -> &mut Defset {
+        #[cfg(tablegen_lsp_verif)]
+        verif_oplog::push(format!("defset_mut\t{}", defset_id.index()));
         self.defset_list
             .get_mut(defset_id)
             .expect("invalid defset id")
@@ -128,6 +168,8 @@ impl SymbolMap {
     }
 
     pub fn multiclass_mut(&mut self, multiclass_id: MulticlassId) -> &mut Multiclass {
+        #[cfg(tablegen_lsp_verif)]
+        verif_oplog::push(format!("multiclass_mut\t{}", multiclass_id.index()));
         self.multiclass_list
             .get_mut(multiclass_id)
             .expect("invalid multiclass id")
@@ -142,6 +184,8 @@ impl SymbolMap {
     }
 
     pub fn defm_mut(&mut self, defm_id: DefmId) -> &mut Defm {
+        #[cfg(tablegen_lsp_verif)]
+        verif_oplog::push(format!("defm_mut\t{}", defm_id.index()));
         self.defm_list.get_mut(defm_id).expect("invalid defm id")
     }
 
@@ -238,11 +282,27 @@ impl SymbolMap {
                 .push(id.into());
         }
         self.add_to_pos_to_symbol_map(define_loc, id);
+        #[cfg(tablegen_lsp_verif)]
+        verif_oplog::push(format!(
+            "add_record\t{}\t{:?}\t{}\t{}\t{}",
+            self.record(id).name,
+            self.record(id).kind,
+            verif_oplog::loc(&define_loc),
+            is_global as u8,
+            id.index()
+        ));
         id
     }
 
     pub fn add_anonymous_def(&mut self, record: Record) -> RecordId {
         assert!(record.kind == RecordKind::Def);
+        #[cfg(tablegen_lsp_verif)]
+        verif_oplog::push(format!(
+            "add_anonymous_def\t{}\t{}\t{}",
+            record.name,
+            verif_oplog::loc(&record.define_loc),
+            self.record_list.next_id().index()
+        ));
         self.record_list.alloc(record)
     }
 
@@ -250,6 +310,13 @@ impl SymbolMap {
         let define_loc = template_arg.define_loc;
         let id = self.template_arg_list.alloc(template_arg);
         self.add_to_pos_to_symbol_map(define_loc, id);
+        #[cfg(tablegen_lsp_verif)]
+        verif_oplog::push(format!(
+            "add_template_argument\t{}\t{}\t{}",
+            self.template_arg(id).name,
+            verif_oplog::loc(&define_loc),
+            id.index()
+        ));
         id
     }
 
@@ -257,6 +324,14 @@ impl SymbolMap {
         let define_loc = record_field.define_loc;
         let id = self.record_field_list.alloc(record_field);
         self.add_to_pos_to_symbol_map(define_loc, id);
+        #[cfg(tablegen_lsp_verif)]
+        verif_oplog::push(format!(
+            "add_record_field\t{}\t{}\t{}\t{}",
+            self.record_field(id).name,
+            verif_oplog::loc(&define_loc),
+            self.record_field(id).parent.index(),
+            id.index()
+        ));
         id
     }
 
@@ -268,6 +343,13 @@ impl SymbolMap {
             .or_default()
             .push(id.into());
         self.add_to_pos_to_symbol_map(define_loc, id);
+        #[cfg(tablegen_lsp_verif)]
+        verif_oplog::push(format!(
+            "add_variable\t{}\t{}\t{}",
+            self.variable(id).name,
+            verif_oplog::loc(&define_loc),
+            id.index()
+        ));
         id
     }
 
@@ -279,6 +361,13 @@ impl SymbolMap {
             .or_default()
             .push(id.into());
         self.add_to_pos_to_symbol_map(define_loc, id);
+        #[cfg(tablegen_lsp_verif)]
+        verif_oplog::push(format!(
+            "add_defset\t{}\t{}\t{}",
+            self.defset(id).name,
+            verif_oplog::loc(&define_loc),
+            id.index()
+        ));
         id
     }
 
@@ -292,6 +381,13 @@ impl SymbolMap {
             .or_default()
             .push(id.into());
         self.add_to_pos_to_symbol_map(define_loc, id);
+        #[cfg(tablegen_lsp_verif)]
+        verif_oplog::push(format!(
+            "add_multiclass\t{}\t{}\t{}",
+            self.multiclass(id).name,
+            verif_oplog::loc(&define_loc),
+            id.index()
+        ));
         id
     }
 
@@ -305,15 +401,36 @@ impl SymbolMap {
                 .push(id.into());
         }
         self.add_to_pos_to_symbol_map(define_loc, id);
+        #[cfg(tablegen_lsp_verif)]
+        verif_oplog::push(format!(
+            "add_defm\t{}\t{}\t{}\t{}",
+            self.defm(id).name,
+            verif_oplog::loc(&define_loc),
+            is_global as u8,
+            id.index()
+        ));
         id
     }
 
     pub fn add_anonymous_defm(&mut self, defm: Defm) -> DefmId {
+        #[cfg(tablegen_lsp_verif)]
+        verif_oplog::push(format!(
+            "add_anonymous_defm\t{}\t{}\t{}",
+            defm.name,
+            verif_oplog::loc(&defm.define_loc),
+            self.defm_list.next_id().index()
+        ));
         self.defm_list.alloc(defm)
     }
 
     pub fn add_reference(&mut self, symbol_id: impl Into<SymbolId>, reference_loc: FileRange) {
         let symbol_id = symbol_id.into();
+        #[cfg(tablegen_lsp_verif)]
+        verif_oplog::push(format!(
+            "add_reference\t{}\t{}",
+            verif_symbol_id(symbol_id),
+            verif_oplog::loc(&reference_loc)
+        ));
         let mut symbol = self.symbol_mut(symbol_id);
         symbol.add_reference(reference_loc);
         self.add_to_pos_to_symbol_map(reference_loc, symbol_id);
@@ -329,6 +446,19 @@ impl SymbolMap {
             .entry(loc.file)
             .or_insert_with(IntervalMap::new)
             .insert(loc.range.into(), symbol_id.into());
+    }
+}
+
+#[cfg(tablegen_lsp_verif)]
+fn verif_symbol_id(id: SymbolId) -> String {
+    match id {
+        SymbolId::RecordId(id) => format!("record\t{}", id.index()),
+        SymbolId::TemplateArgumentId(id) => format!("template_arg\t{}", id.index()),
+        SymbolId::RecordFieldId(id) => format!("record_field\t{}", id.index()),
+        SymbolId::VariableId(id) => format!("variable\t{}", id.index()),
+        SymbolId::DefsetId(id) => format!("defset\t{}", id.index()),
+        SymbolId::MulticlassId(id) => format!("multiclass\t{}", id.index()),
+        SymbolId::DefmId(id) => format!("defm\t{}", id.index()),
     }
 }
 
